@@ -1,6 +1,7 @@
 (** * The algebra of unions and positional filters (C07). *)
 From Coq Require Import List NArith Bool Lia Sorting.Sorted.
 From XmlRs Require Import Base.CPred Base.NList Base.Float64.
+From XmlRs Require Import Spec.XPathCore Model.XPathFuncs.
 From XmlRs Require Import Model.XPathAst Model.XDoc Model.XPathScalar Model.XPathEval.
 From XmlRs Require Import Proofs.XPathEvalEqs Proofs.XPathNav Proofs.XPathSort Proofs.XPathAstPred
   Proofs.XPathInv Proofs.XPathCtx Proofs.XPathCanon.
@@ -44,7 +45,7 @@ Proof.
   rewrite (bindM_ext _ _ ret) by (intros; rewrite eval_add_ops_nil; reflexivity). rewrite bindM_ret_r.
   rewrite eval_mul_expr_eq.
   rewrite (bindM_ext _ _ ret) by (intros; rewrite eval_mul_ops_nil; reflexivity). rewrite bindM_ret_r.
-  rewrite eval_unary_expr_eq. cbn [N.even]. apply bindM_ret_r.
+  rewrite eval_unary_expr_eq. apply bindM_ret_r.
 Qed.
 
 Lemma eval_paren u n c : eval_path_expr doc (paren u) n c = eval_union_expr doc u n c.
@@ -64,7 +65,7 @@ Qed.
 Definition union_values (va vb : xvalue) : res xvalue :=
   match va, vb with
   | XNodes la, XNodes lb => Ok (XNodes (union_finish doc (la ++ lb)))
-  | _, _ => Err EInvalidType
+  | _, _ => Err XErrInvalidType
   end.
 
 Lemma eval_union2 A B n c va vb :
@@ -122,6 +123,7 @@ Proof.
                 (good_parent doc Hinv) (good_root doc Hinv)
                 not_ns_axis any_str any_str False (good_axis doc Hinv)) as Hall.
   destruct Hall as (_&_&_&_&_&_&_&_&_&_&_&_&_&_&_&Hp&_).
+  - intros F; destruct F.
   - intros F; destruct F.
   - intros F; destruct F.
   - specialize (Hp p Hok n Gn c). rewrite H in Hp. exact Hp.
